@@ -448,8 +448,7 @@ class Run:
         self.stats.state(e.origin, 'disp' if before else 'pos', 'positions', 'pos', min(e.depth, 3))
         if pos.shape != e.M['P'].shape or not circ_max(pos, e.M['P']) <= TOL:
             self.violation('positions_changed', f'{e.name}: .positions differs from the model (was in {"displacement" if before else "position"} mode)', {'origin': e.origin})
-        if pos.size and (pos.min() < 0 or pos.max() > 1):
-            self.violation('positions_not_wrapped', f'{e.name}: .positions outside [0,1]: min {pos.min()} max {pos.max()}', {'origin': e.origin})
+        # (whether .positions is wrapped into [0,1) is C01's business; C15 compares modulo 1 only)
 
     # -- ops ---------------------------------------------------------------------------------
     def op_perturb(self, op):
